@@ -25,6 +25,9 @@ MODELS = {
     "parsevalues": ("---- MODULE MC_pv ----\nEXTENDS MC_ParseValues\n====\n",
                     "SPECIFICATION Spec\nCONSTANTS N = {q}\n UsePinnedNeg = FALSE\nINVARIANTS Inv_Verdict Inv_Values Inv_Reject\nCHECK_DEADLOCK FALSE\n",
                     {"quick": 2, "thorough": 3}),
+    "hash": ("---- MODULE MC_hash ----\nEXTENDS Hash\n====\n",
+             "SPECIFICATION Spec\nCONSTANTS Keys = {{1, 2, 3, 5, 8{q}}}\n Leftovers = {{\"bogus\", \"mode2\", \"x\"}}\n SkipSort = FALSE\nINVARIANT Deterministic\nCHECK_DEADLOCK FALSE\n",
+             {"quick": "", "thorough": ", 13, 21"}),
     "resolve": (None, "SPECIFICATION Spec\nCONSTANTS ModeSlice = \"{q}\"\nINVARIANTS Inv_C10 Inv_C13\nCHECK_DEADLOCK FALSE\n",
                 {"quick": "default", "thorough": "all"}),
 }
@@ -57,6 +60,7 @@ NEGATIVE = {
     # (F5 cannot be exhibited on the Verdict cases: landmark coordinates are symmetric around 0, the asymmetry of
     #  two's complement that F5 needs is modelled by MC_ParseValues' tiny type -> parsevalues_pinned_neg)
     "enumtools_pinned_offset": ("enumtools_c10", lambda cfg: cfg.replace("UsePinnedOffset = FALSE", "UsePinnedOffset = TRUE"), "Inv_Items"),
+    "hash_skip_sort": ("hash", lambda cfg: cfg.replace("SkipSort = FALSE", "SkipSort = TRUE"), "Deterministic"),
     "iterimpl_pinned_table": ("iterimpl_i3", lambda cfg: cfg.replace("PinnedTable = FALSE", "PinnedTable = TRUE"), "ConstructorOK"),
 }
 FOR_PROP = {"C01": ["gencode_i4", "gencode_u4", "gencode_i8"], "C03": ["gencode_i4", "gencode_u4", "gencode_i8"],
@@ -64,6 +68,7 @@ FOR_PROP = {"C01": ["gencode_i4", "gencode_u4", "gencode_i8"], "C03": ["gencode_
             "C02": ["gencode_i4", "iterimpl_i3", "iterimpl_u3"], "C06": ["iterimpl_i3", "iterimpl_u3"], "C07": ["iterimpl_i3", "iterimpl_u3", "gencode_i4"],
             "C08": ["iterimpl_u3"], "C09": ["resolve"], "C10": ["resolve", "parseattr_c10"], "C13": ["resolve", "parseattr_c13"],
             "C11": ["parsevalues", "enumtools_c11"], "C12": ["parsevalues", "enumtools_c12"], "C14": ["parsevalues", "enumtools_c14"]}
+FOR_PROP["C17"] = ["hash"]
 FOR_PROP["C10"].append("enumtools_c10")
 FOR_PROP["C13"].append("enumtools_c13")
 
